@@ -153,12 +153,12 @@ FLOORS = {
                               "route_foreign_ast_cases": 3700,
                               "route_foreign_ast_events_compared": 8000,
                               **{"route_cases:" + r: 300 for r in ROUTE_NAMES},
-                              "install_cases": 12000, "install_events_compared": 30000,
-                              "install_changed_after_compile_cases": 8000, "install_async_cases": 2400,
-                              "install_sets_on:class": 6000, "install_sets_on:instance": 6000,
-                              "install_via:from_string": 4000, "install_via:loader": 4000,
-                              "install_via:loader-include": 4000,
-                              **{"install_nontrivial_cases:" + i: 600 for i in INSTALL_NAMES}}},
+                              "install_cases": 9000, "install_events_compared": 23000,
+                              "install_changed_after_compile_cases": 6000, "install_async_cases": 1800,
+                              "install_sets_on:class": 4500, "install_sets_on:instance": 4500,
+                              "install_via:from_string": 3000, "install_via:loader": 3000,
+                              "install_via:loader-include": 3000,
+                              **{"install_nontrivial_cases:" + i: 550 for i in INSTALL_NAMES}}},
 }
 
 ALL_OPS = [("b", o) for o in G.BINOPS] + [("u", o) for o in G.UNOPS]
